@@ -118,6 +118,10 @@ func configsFor(part string, thorough bool) []*xcfg {
 				Script: []string{"T1", "H1", "P1", "R4", "H1", "R4", "R1"}},
 			{Name: "reads-newleader-dev", Voters: v3, Fifo: true, MaxDev: pick(2, 3), MaxTerm: 6, MaxIndex: 9, Reads: 2, Timeouts: 1, Proposals: 1, Heartbeats: 1, Drops: 3,
 				Script: []string{"T1", "H1", "P1", "T2", "R2", "R1", "H2", "R2"}},
+			{Name: "reads-reelected-leader-dev", Voters: v3, Fifo: true, MaxDev: pick(2, 3), MaxTerm: 8, MaxIndex: 11, Reads: 1, Timeouts: 1, Heartbeats: 1, Drops: 2,
+				// replica 1 leads and serves a read, replica 2 takes over and commits a write that 1 holds but does not
+				// know to be committed, 1 is elected again: a read before its own-term entry commits must not be served
+				Script: []string{"T1", "H1", "P1", "R1", "H1", "T2", "P2", "T1", "R1", "H1", "R1"}},
 		}
 	case "c07":
 		return []*xcfg{
